@@ -174,6 +174,18 @@ CHECKS["C02"] = {
     ],
 }
 
+CHECKS["C03"] = {
+    "pkg": "c03",
+    "level": "exploration",
+    "technique": "generated commit scenarios x fault-position sweep (lost request, lost response, five region errors, split, leader transfer, resolver race on a skewed clock at every request of Commit) plus generated multi-fault plans, with a fault-free twin; oracle = Commit's answer versus the raw MVCC truth after recovery, and a trace predicate that justifies every 'undetermined'",
+    "level_text": "Each generated scenario is executed once fault-free (twin), once per (request position, fault kind) and with 1-3 generated multi-fault plans, on mocktikv (2PC, virtual time) and unistore (async commit, 1PC). Faults are injected by the per-client RPC interposer; a resolver race runs another client, for which all locks look expired, while the victim's request is parked. Interleavings inside the store or inside the client between two requests are not enumerated.",
+    "level_note": "Trusted: mocktikv (C12) and unistore as stores; the injected region errors are synthesised by the interposer (the store did not execute the request).",
+    "tests": [
+        {"name": "TestTruthful", "quick": 15, "thorough": 250, "shards": 16, "timeout_q": 400, "timeout_t": 3000},
+        {"name": "TestTruthfulUni", "quick": 10, "thorough": 150, "shards": 16, "timeout_q": 400, "timeout_t": 3000},
+    ],
+}
+
 # properties without a registered check, with the reason (kept current by hand)
 NOT_CLAIMED = {}
 
